@@ -2,7 +2,7 @@
 From Via Require Import M_Char M_Encode M_Parse M_Receive M_Server P_Server.
 Local Open Scope N_scope.
 
-From Via Require Import P_C09 P_Shapes.
+From Via Require Import P_C09 P_Shapes P_C10.
 
 (* in every reachable state: a connection known to http_server is known to comms::server, is
    connected and its socket is open; so the collections never hold a closed connection *)
@@ -10,4 +10,45 @@ Theorem C10_collections_consistent : forall recipe_of o evs,
   Forall conn_ok (w_conns (fst (run recipe_of o w_init evs))).
 Proof. exact run_conn_ok. Qed.
 
+(* over every history - any interleaving, over any number of connections, of accepts (filter accepts or refuses,
+   handshake succeeds or fails), request fragments, responses, application disconnects, errors and aborted
+   completions of every kind, server shutdown / close / destruction: the events the application sees for each
+   connection are accepted by the lifecycle monitor life_run (P_C10.v):
+     connected      only when the connection has not been connected before,
+     disconnected   only while it is connected (so at most once, and only after connected),
+     request, chunk, expect-continue, invalid-request, message-sent   only while it is connected
+   (so nothing after disconnected).  None means the monitor has refused an event. *)
+Theorem C10_lifecycle_events_are_paired : forall recipe_of o evs,
+  life_run (fun _ => Lnone) (snd (run recipe_of o w_init evs)) <> None.
+Proof. exact lifecycle_paired. Qed.
+
+(* ... and the monitor's "connected" is exactly http_server's record of the connection, in every reachable state *)
+Theorem C10_connected_iff_recorded : forall recipe_of o evs,
+  exists s, life_run (fun _ => Lnone) (snd (run recipe_of o w_init evs)) = Some s /\
+            forall c, In c (w_conns (fst (run recipe_of o w_init evs))) -> (s (c_id c) = Lconn <-> c_in_http c = true).
+Proof.
+  intros recipe_of o evs. destruct (run_ok recipe_of o evs w_init _ Inv_init) as [s [R (_ & _ & _ & H & _)]].
+  exists s. split; [exact R | exact H].
+Qed.
+
+(* the monitor is not vacuous: it refuses a second connected, a disconnected without connected, and a request after
+   disconnected; and a plain history is accepted with the connection ending in the disconnected state *)
+Example C10_example_monitor_refuses :
+  life_run (fun _ => Lnone) [LConnected 1; LConnected 1] = None /\
+  life_run (fun _ => Lnone) [LDisconnected 1] = None /\
+  life_run (fun _ => Lnone) [LConnected 1; LDisconnected 1; LSent 1] = None /\
+  life_run (fun _ => Lnone) [LConnected 1; LDisconnected 1; LDisconnected 1] = None.
+Proof. repeat split; reflexivity. Qed.
+
+Example C10_example_history :
+  let cfg := mk_rcfg (mk_limits 8190 8 100 65534 1024 8 65534 65534 false) 1048576 1048576 true true false in
+  let o := mk_sopts false 0 false false false false false cfg in
+  let rq := [71;69;84;32;47;32;72;84;84;80;47;49;46;48;13;10;13;10] in
+  let log := snd (run (fun _ => mk_recipe 200 2 1 []) o w_init [([], EvAccept true); ([], EvRead 1 rq); ([], EvWriteDone 1)]) in
+  In (LConnected 1) log /\ In (LDisconnected 1) log /\
+  match life_run (fun _ => Lnone) log with Some s => s 1%nat = Ldisc | None => False end.
+Proof. vm_compute. repeat split; repeat (first [left; reflexivity | right]). Qed.
+
 Print Assumptions C10_collections_consistent.
+Print Assumptions C10_lifecycle_events_are_paired.
+Print Assumptions C10_connected_iff_recorded.
